@@ -254,6 +254,66 @@ pub fn doomed_prelude(rng: &mut Rng) -> Vec<HStep> {
     vec![]
 }
 
+/// A doomed position (the side to move is mated next move whatever it plays) met first INSIDE
+/// the trees of positions before it, then searched as a root with limits no deeper than the
+/// cached entry: the root then answers from the table without looking at its own move list.
+/// The positions before it are built by taking back a move of the stronger side.
+pub fn doomed_line_prelude(rng: &mut Rng) -> Vec<HStep> {
+    use chess_oracle::Kind;
+    for _ in 0..400 {
+        let fam = if rng.chance(1, 2) { gen::Family::Kxk(o::QUEEN) } else { gen::Family::Kxk(o::ROOK) };
+        let Some(g) = gen::family_nth(fam, rng.next() % gen::family_size(fam)) else { continue };
+        let replies = g.legal_moves();
+        if replies.is_empty() || !replies.iter().all(|r| solve::has_mate_in_1(&g.make(r))) {
+            continue;
+        }
+        // parents: the side that has just moved (not to move in g) takes a quiet move back
+        let strong_white = !g.white_to_move;
+        let mut parents: Vec<(Pos, Mv)> = vec![];
+        for t in 0..64u8 {
+            let x = g.b[t as usize];
+            if x == o::EMPTY || o::is_white(x) != strong_white {
+                continue;
+            }
+            for f in 0..64u8 {
+                if g.b[f as usize] != o::EMPTY {
+                    continue;
+                }
+                let mut p = g.clone();
+                p.b[f as usize] = x;
+                p.b[t as usize] = o::EMPTY;
+                p.white_to_move = strong_white;
+                p.ep = None;
+                if !p.is_sane() {
+                    continue;
+                }
+                let mv = Mv { from: f, to: t, promo: 0, kind: Kind::Normal };
+                if o::kind(x) != o::PAWN && p.legal_moves().contains(&mv) && p.make(&mv) == g {
+                    parents.push((p, mv));
+                }
+            }
+        }
+        if parents.is_empty() {
+            continue;
+        }
+        let mut steps = vec![];
+        let n = parents.len().min(4);
+        for _ in 0..n {
+            let (p, mv) = rng.pick(&parents).clone();
+            let fen0 = fen::render6(&p, 0, 1);
+            // the parent, deep enough for the doomed position to be an interior node
+            steps.push(HStep { root: Root { fen: fen0.clone(), moves: vec![] }, limit: Some(4 + rng.below(2) as u8), stop_at: 0, clear_table: false });
+            // the doomed position as a root, by moves and as text, shallow limits
+            for l in [1u8, 2, 3] {
+                let root = if rng.chance(1, 2) { Root { fen: fen0.clone(), moves: vec![mv.uci()] } } else { Root { fen: fen::render6(&g, 0, 1), moves: vec![] } };
+                steps.push(HStep { root, limit: Some(l), stop_at: 0, clear_table: false });
+            }
+        }
+        return steps;
+    }
+    vec![]
+}
+
 /// A search history over one shared table: positions of one game in playing order, sibling
 /// positions, text twins differing only in rights / en-passant file, shallower-after-deeper and
 /// deeper-after-shallower limits, occasional stops at a random poll.
@@ -268,6 +328,7 @@ pub fn make_history(corpus: &[String], rng: &mut Rng, len: usize, max_depth: u8)
     match rng.below(6) {
         0 => steps.extend(dead_end_prelude(rng)),
         1 | 2 => steps.extend(doomed_prelude(rng)),
+        3 | 4 => steps.extend(doomed_line_prelude(rng)),
         _ => {}
     }
     let mut ply = if moves.is_empty() { 0 } else { rng.below(moves.len().min(40) + 1) };
